@@ -1,0 +1,51 @@
+// Observation hooks for external runtime monitors; compiled only with -DTAO_PEGTL_VERIF.
+// All hooks are null by default and change no behaviour.
+
+#ifndef TAO_PEGTL_INTERNAL_VERIF_HOOKS_HPP
+#define TAO_PEGTL_INTERNAL_VERIF_HOOKS_HPP
+
+#if defined( TAO_PEGTL_VERIF )
+
+#include <cstddef>
+
+#include "../config.hpp"
+
+namespace TAO_PEGTL_NAMESPACE::internal::verif
+{
+   struct hooks_t
+   {
+      // op: 0 = peek_char( offset ), 1 = bump( count ), 2 = bump_in_this_line, 3 = bump_to_next_line;
+      // called when the request reaches outside [ current, end ).
+      void ( *window_violation )( int op, const void* input, std::size_t request, std::size_t available ) = nullptr;
+      // called for every bump of an input, before the cursor moves.
+      void ( *bump_observer )( const void* input, std::size_t count ) = nullptr;
+      // buffer_input: window after every require()/discard().
+      void ( *buffer_window )( const void* input, const char* buffer, std::size_t capacity, const char* current, const char* end ) = nullptr;
+      // buffer_input: every require( amount ) that is not already satisfied, before anything else happens.
+      void ( *buffer_require )( const void* input, std::size_t offset_in_buffer, std::size_t amount, std::size_t capacity, std::size_t occupied ) = nullptr;
+      // buffer_input: every call of the reader.
+      void ( *buffer_read )( const void* input, std::size_t requested, std::size_t got ) = nullptr;
+   };
+
+   inline hooks_t hooks;
+
+   inline void check_window( const int op, const void* input, const std::size_t request, const std::size_t available, const bool inclusive ) noexcept
+   {
+      if( hooks.window_violation != nullptr ) {
+         if( inclusive ? ( request > available ) : ( request >= available ) ) {
+            hooks.window_violation( op, input, request, available );
+         }
+      }
+   }
+
+   inline void observe_bump( const void* input, const std::size_t count ) noexcept
+   {
+      if( hooks.bump_observer != nullptr ) {
+         hooks.bump_observer( input, count );
+      }
+   }
+
+}  // namespace TAO_PEGTL_NAMESPACE::internal::verif
+
+#endif
+#endif
